@@ -28,7 +28,9 @@ func (k sckind) String() string {
 	return [...]string{"module", "def", "lambda", "class", "listcomp", "genexp"}[k]
 }
 
-func (k sckind) funcLike() bool { return k == scDef || k == scLambda || k == scListComp || k == scGenExp }
+func (k sckind) funcLike() bool {
+	return k == scDef || k == scLambda || k == scListComp || k == scGenExp
+}
 func (k sckind) exprOnly() bool { return k == scLambda || k == scListComp || k == scGenExp }
 
 type ikind int
